@@ -54,6 +54,18 @@ theorem getToken_ok_int (c : Ctx) (hidx : IdxOk c) (i : Int) (h0 : 0 ≤ i) (h :
 def Opener (c : Ctx) (j : Nat) : Prop :=
   ∃ o, c.getToken (j : Int) = .ok (.op o) ∧ (o.opType.and pairStartM).toBool = true ∧ o.isPairOp = true
 
+/-- token `j` is a closing bracket -/
+def Closer (c : Ctx) (j : Nat) : Prop :=
+  ∃ o, c.getToken (j : Int) = .ok (.op o) ∧ (o.opType.and pairM).toBool = true ∧ (o.opType.and pairStartM).toBool = false
+
+/-- binding `(a, b)`: an opening bracket at `a`, a closing one at `b`, of the same kind by the
+    C++ test `start.opType == (end.opType >> 1)` -/
+def Match (c : Ctx) (a b : Int) : Prop :=
+  ∃ oa ob, c.getToken a = .ok (.op oa) ∧ c.getToken b = .ok (.op ob) ∧
+    (oa.opType.and pairStartM).toBool = true ∧
+    (ob.opType.and pairM).toBool = true ∧ (ob.opType.and pairStartM).toBool = false ∧
+    ob.opType.shr 1 = .ok oa.opType
+
 theorem lookup_mem : ∀ (m : List (Int × Int)) (k b : Int), lookup m k = some b → (k, b) ∈ m := by
   intro m
   induction m with
@@ -78,31 +90,40 @@ theorem findPairsLoop_spec (c : Ctx) (hidx : IdxOk c) (htyped : Typed c.tokens) 
       (∀ s ∈ st, s < i ∧ Opener c s) →
       (∀ a b, (a, b) ∈ pairs → a < b ∧ b < (c.tokenIndices.size : Int)) →
       (∀ j, j < i → Opener c j → j ∈ st ∨ ∃ b, lookup pairs (j : Int) = some b ∧ (j : Int) < b) →
+      (∀ a b, (a, b) ∈ pairs → Match c a b) →
+      (∀ j, j < i → Closer c j → ∃ a, (a, (j : Int)) ∈ pairs) →
       ∃ out, findPairsLoop c rem i st pairs = .ok out ∧
         (∀ a b, (a, b) ∈ out.pairs → a < b ∧ b < (c.tokenIndices.size : Int)) ∧
         (c.supressErrors = false → c.hasError = false → out.hasError = false →
           ∀ j, j < c.tokenIndices.size → Opener c j →
-            ∃ b, lookup out.pairs (j : Int) = some b ∧ (j : Int) < b) := by
+            ∃ b, lookup out.pairs (j : Int) = some b ∧ (j : Int) < b) ∧
+        (∀ a b, (a, b) ∈ out.pairs → Match c a b) ∧
+        (c.supressErrors = false → c.hasError = false → out.hasError = false →
+          ∀ j, j < c.tokenIndices.size → Closer c j → ∃ a, (a, (j : Int)) ∈ out.pairs) := by
   intro rem
   induction rem with
   | zero =>
-    intro i st pairs hlen hst hpairs hcov
+    intro i st pairs hlen hst hpairs hcov hmatch hclose
     cases st with
     | nil =>
-      refine ⟨⟨pairs, c.hasError⟩, by simp [findPairsLoop], hpairs, ?_⟩
-      intro _ _ _ j hj hop
-      have hji : j < i := by omega
-      rcases hcov j hji hop with h | h
-      · simp at h
-      · exact h
+      refine ⟨⟨pairs, c.hasError⟩, by simp [findPairsLoop], hpairs, ?_, hmatch, ?_⟩
+      · intro _ _ _ j hj hop
+        have hji : j < i := by omega
+        rcases hcov j hji hop with h | h
+        · simp at h
+        · exact h
+      · intro _ _ _ j hj hcl
+        exact hclose j (by omega) hcl
     | cons s st' =>
       obtain ⟨_, o, hget, _, hpo⟩ := hst s (by simp)
-      refine ⟨⟨pairs, if c.supressErrors then c.hasError else true⟩, ?_, hpairs, ?_⟩
+      refine ⟨⟨pairs, if c.supressErrors then c.hasError else true⟩, ?_, hpairs, ?_, hmatch, ?_⟩
       · simp [findPairsLoop, hget, Tok.asPairOp, hpo]
       · intro hs1 _ hout
         simp [hs1] at hout
+      · intro hs1 _ hout
+        simp [hs1] at hout
   | succ rem ih =>
-    intro i st pairs hlen hst hpairs hcov
+    intro i st pairs hlen hst hpairs hcov hmatch hclose
     have hi : i < c.tokenIndices.size := by omega
     obtain ⟨token, k, hget, hk⟩ := getToken_ok c hidx i hi
     -- i is not an opener unless we say so below
@@ -110,26 +131,38 @@ theorem findPairsLoop_spec (c : Ctx) (hidx : IdxOk c) (htyped : Typed c.tokens) 
     unfold findPairsLoop
     simp only [hget, ok_bind]
     -- the common continuation when token i is not an opener and nothing changes
-    have skip : (¬ Opener c i) →
+    have skip : (¬ Opener c i) → (¬ Closer c i) →
         ∃ out, findPairsLoop c rem (i + 1) st pairs = .ok out ∧
         (∀ a b, (a, b) ∈ out.pairs → a < b ∧ b < (c.tokenIndices.size : Int)) ∧
         (c.supressErrors = false → c.hasError = false → out.hasError = false →
           ∀ j, j < c.tokenIndices.size → Opener c j →
-            ∃ b, lookup out.pairs (j : Int) = some b ∧ (j : Int) < b) := by
-      intro hno
+            ∃ b, lookup out.pairs (j : Int) = some b ∧ (j : Int) < b) ∧
+        (∀ a b, (a, b) ∈ out.pairs → Match c a b) ∧
+        (c.supressErrors = false → c.hasError = false → out.hasError = false →
+          ∀ j, j < c.tokenIndices.size → Closer c j → ∃ a, (a, (j : Int)) ∈ out.pairs) := by
+      intro hno hnc
       apply ih (i + 1) st pairs (by omega) hst' hpairs
-      intro j hj hop
-      by_cases e : j = i
-      · subst e; exact absurd hop hno
-      · exact hcov j (by omega) hop
+      · intro j hj hop
+        by_cases e : j = i
+        · subst e; exact absurd hop hno
+        · exact hcov j (by omega) hop
+      · exact hmatch
+      · intro j hj hcl
+        by_cases e : j = i
+        · subst e; exact absurd hcl hnc
+        · exact hclose j (by omega) hcl
     cases token with
     | other sk =>
       have hno : ¬ Opener c i := by
         rintro ⟨o, h, _⟩
         rw [hget] at h
         cases h
+      have hnc : ¬ Closer c i := by
+        rintro ⟨o, h, _⟩
+        rw [hget] at h
+        cases h
       simp only [Tok.getOpType, none_not_pair]
-      simpa using skip hno
+      simpa using skip hno hnc
     | op o =>
       have hknown : o ∈ knownOps := htyped k _ hk o rfl
       simp only [Tok.getOpType]
@@ -151,6 +184,16 @@ theorem findPairsLoop_spec (c : Ctx) (hidx : IdxOk c) (htyped : Typed c.tokens) 
             · rcases hcov j (by omega) hop with h | h
               · exact Or.inl (List.mem_cons_of_mem _ h)
               · exact Or.inr h
+          · exact hmatch
+          · intro j hj hcl
+            by_cases e : j = i
+            · subst e
+              obtain ⟨o', h, _, h3⟩ := hcl
+              rw [hget] at h
+              cases h
+              rw [hs] at h3
+              cases h3
+            · exact hclose j (by omega) hcl
         · -- closer
           have hpo := knownOps_pair_isPairOp o hknown hp
           have hno : ¬ Opener c i := by
@@ -161,19 +204,25 @@ theorem findPairsLoop_spec (c : Ctx) (hidx : IdxOk c) (htyped : Typed c.tokens) 
           simp only [hp, hs, Bool.not_true, Bool.false_eq_true, if_false, Tok.asPairOp, hpo, if_true, ok_bind]
           cases st with
           | nil =>
-            refine ⟨⟨pairs, if c.supressErrors then c.hasError else true⟩, rfl, hpairs, ?_⟩
-            intro hs1 _ hout
-            simp [hs1] at hout
+            refine ⟨⟨pairs, if c.supressErrors then c.hasError else true⟩, rfl, hpairs, ?_, hmatch, ?_⟩
+            · intro hs1 _ hout
+              simp [hs1] at hout
+            · intro hs1 _ hout
+              simp [hs1] at hout
           | cons s st' =>
-            obtain ⟨hsi, os, hgets, _, hpos⟩ := hst s (by simp)
+            obtain ⟨hsi, os, hgets, hsstart, hpos⟩ := hst s (by simp)
             obtain ⟨sh, hsh⟩ := shr_one_ok o.opType
             simp only [hgets, ok_bind, Tok.asPairOp, hpos, if_true, hsh]
             by_cases hm : (os.opType != sh) = true
             · simp only [hm, if_true]
-              refine ⟨⟨pairs, if c.supressErrors then c.hasError else true⟩, rfl, hpairs, ?_⟩
-              intro hs1 _ hout
-              simp [hs1] at hout
+              refine ⟨⟨pairs, if c.supressErrors then c.hasError else true⟩, rfl, hpairs, ?_, hmatch, ?_⟩
+              · intro hs1 _ hout
+                simp [hs1] at hout
+              · intro hs1 _ hout
+                simp [hs1] at hout
             · simp only [hm, Bool.false_eq_true, if_false]
+              have heq : os.opType = sh := by simpa using hm
+              have hsF : (o.opType.and pairStartM).toBool = false := by simpa using hs
               apply ih (i + 1) st' (((s : Int), (i : Int)) :: pairs) (by omega)
               · intro s' hs'
                 exact hst' s' (List.mem_cons_of_mem _ hs')
@@ -200,13 +249,28 @@ theorem findPairsLoop_spec (c : Ctx) (hidx : IdxOk c) (htyped : Typed c.tokens) 
                       · exact absurd (by omega : j = s) e2
                       · simp only [e3, if_false]
                         exact ⟨b, hb, hjb⟩
+              · intro a b hab
+                rcases List.mem_cons.mp hab with e | e
+                · cases e
+                  exact ⟨os, o, hgets, hget, hsstart, hp, hsF, by rw [hsh, heq]⟩
+                · exact hmatch a b e
+              · intro j hj hcl
+                by_cases e : j = i
+                · subst e; exact ⟨(s : Int), by simp⟩
+                · obtain ⟨a, ha⟩ := hclose j (by omega) hcl
+                  exact ⟨a, List.mem_cons_of_mem _ ha⟩
       · -- not a pair token
         have hno : ¬ Opener c i := by
           rintro ⟨o', h, h2, _⟩
           rw [hget] at h
           cases h
           exact hp (knownOps_start_pair o hknown h2)
+        have hnc : ¬ Closer c i := by
+          rintro ⟨o', h, h2, _⟩
+          rw [hget] at h
+          cases h
+          exact hp h2
         simp only [hp, Bool.not_false, if_true]
-        simpa using skip hno
+        simpa using skip hno hnc
 
 end Occa.FrontEnd
